@@ -81,6 +81,26 @@ def action_check(index: RepoIndex, rep, rule: str) -> None:
     rep.check(bool(dyn) and all(c.order > e.order for c in dyn), rule, GW,
               'GridWorld.functional_step', e.line, src(e.stmt),
               'the dynamics run before the action is checked', 'check precedes dynamics')
+    # ... and nothing has been stored before the check in the stateful entry point: `step`
+    # evaluates `self.state` (a property) and then calls functional_step, which raises; neither
+    # that read nor any statement of `step` before the call may store (C04.R3)
+    INNER_ = 'gym_gridverse/envs/inner_env.py'
+    ic = index.cls(INNER_, 'InnerEnv')
+    stp, getter = ic.methods.get('step'), ic.methods.get('state')
+    if stp is None or getter is None:
+        raise AnalysisError('anchor vanished: InnerEnv.step / InnerEnv.state')
+    ws = view(index, stp)[1]
+    fc_ = [c for c in ws.events if c.kind == 'call'
+           and src(c.node.func) == 'self.functional_step']
+    early = [x for x in ws.events if x.kind in ('store', 'attrstore', 'augstore', 'delete')
+             and fc_ and x.order < fc_[0].order]
+    wg = view(index, getter)[1]
+    early += [x for x in wg.events if x.kind in ('store', 'attrstore', 'augstore', 'delete')]
+    rep.check(bool(fc_) and not early, rule, INNER_, 'InnerEnv.step', stp.node.lineno,
+              '; '.join(src(x.stmt) for x in early) or 'InnerEnv.step',
+              'the environment is modified before the action is checked '
+              f'(`{src(early[0].stmt) if early else ""}`): a rejected action would not leave '
+              'everything unchanged', 'nothing stored before the check')
     m = index.func(SPACES, 'ActionSpace.contains')
     b = m.body()
     p = m.node.args.args[1].arg
